@@ -28,6 +28,7 @@ import (
 	"net/http"
 	"net/http/httptest"
 	"net/url"
+	"os"
 	"path/filepath"
 	"sort"
 	"strings"
@@ -215,7 +216,7 @@ func (env *verifEnv) c04ProtectedRoutes(res *verifResult, valid string) []*c04Ca
 				}
 				class := fmt.Sprintf("mask=%d %s auth=%d unauth=%d", mask, method, a.status, u.status)
 				seenClass[class]++
-				if !verifThorough() && seenClass[class] > 1 {
+				if !verifThorough() && os.Getenv("VERIF_C04_ALL_ROUTES") == "" && seenClass[class] > 1 {
 					continue // quick: one route of every class (level mask, method, the two answers); thorough: all
 				}
 				name := "route:" + method + ":" + target
